@@ -118,7 +118,8 @@ fn case(tier: Tier, rng: &mut Rng, rep: &mut Report) {
     let perm = rng.below(4);
     let extra = rng.chance(0.5);
     let explicit = rng.chance(0.4);
-    let strip_newline = !gzip && rng.chance(0.3);
+    let strip_newline = rng.chance(0.3);
+    let strip_which = rng.below(3); // both files, the edge file only, the vertex file only
     let settings = json!({"gzip": gzip, "vertex_column_layout": perm, "extra_edge_columns": extra, "explicit_counts": explicit, "no_trailing_newline": strip_newline});
     let replay = || json!({"net": net.to_json(), "files": settings});
     // (a) Graph::from_files
@@ -129,8 +130,12 @@ fn case(tier: Tier, rng: &mut Rng, rep: &mut Report) {
     let mut es = net.edges_csv(extra);
     let mut vs = net.vertices_csv(perm);
     if strip_newline {
-        es.pop();
-        vs.pop();
+        if strip_which != 2 {
+            es.pop();
+        }
+        if strip_which != 1 {
+            vs.pop();
+        }
     }
     if write_text(&ep, &es, gzip).is_err() || write_text(&vp, &vs, gzip).is_err() {
         rep.inconclusive("could not write network files".into());
